@@ -676,6 +676,11 @@ macro_rules! impl_graph_traits {
                 &mut self,
                 n: <$graph_type<N, E, Ix> as GraphBase>::NodeId,
             ) -> Option<N> {
+                // a node that does not exist has no place in the order: touching
+                // the order map would drop whichever node sits at position 0
+                if self.graph.node_weight(n).is_none() {
+                    return None;
+                }
                 self.order_map.remove_node(n, &self.graph);
                 self.graph.remove_node(n)
             }
